@@ -186,8 +186,12 @@ def run_scripted(script: dict) -> dict:
     if script["kind"] == "atomic":
         class Cluster(AtomicCoordinates):
             def same_bonds(self_):
+                # the scripted verdict belongs to the minimum this step's minimisation returned; any other
+                # geometry (the perturbed start, the previous minimum) has the opposite bonding
+                sc = steps[st["t"]]
+                at_min = np.array_equal(np.asarray(self_.position, dtype=float), np.array(sc["pos"], dtype=float))
                 rec["bond_calls"][st["t"]] = True
-                return bool(steps[st["t"]]["bonds"])
+                return bool(sc["bonds"]) if at_min else (not bool(sc["bonds"]))
         natoms = len(script["start"]) // 3
         coords = Cluster(["C"] * natoms, np.array(script["start"], dtype=float))
     else:
@@ -763,9 +767,79 @@ def lj_predicate_run(seed: int, n_steps: int) -> tuple[str, str, dict] | None:
     return None
 
 
+def connected_reference(pts: np.ndarray, cutoff: float) -> bool:
+    """flood fill over pairs closer than the cutoff (written here, no networkx)"""
+    n = len(pts)
+    seen, todo = {0}, [0]
+    while todo:
+        i = todo.pop()
+        for j in range(n):
+            if j not in seen and float(np.sqrt(np.sum((pts[i] - pts[j]) ** 2))) < cutoff:
+                seen.add(j)
+                todo.append(j)
+    return len(seen) == n
+
+
+def bond_oracle_cases(rng, count: int):
+    """clusters whose connectivity is decided by chosen pairs: dimers, chains whose end atom is listed last or
+    first, compact clusters, two fragments; every distance stays 5% away from the cutoff"""
+    for _ in range(count):
+        n = rng.choice([2, 2, 3, 3, 4, 5, 7])
+        cutoff = rng.choice([1.5, 1.5, 2.0, 1.2])
+        kind = rng.choice(["chain", "chain", "chain-broken", "compact", "fragments"])
+        if kind.startswith("chain"):
+            gaps = [cutoff * rng.uniform(0.55, 0.9) for _ in range(n - 1)]
+            if kind == "chain-broken":
+                gaps[rng.randrange(n - 1)] = cutoff * rng.uniform(1.1, 1.6)
+            x = np.concatenate([[0.0], np.cumsum(gaps)])
+            pts = np.stack([x, np.zeros(n), np.zeros(n)], axis=1)
+            order = list(range(n))
+            if rng.random() < 0.3:
+                rng.shuffle(order)
+            pts = pts[order]
+        elif kind == "compact":
+            pts = np.array([[rng.uniform(0, 0.5 * cutoff) for _ in range(3)] for _ in range(n)])
+        else:
+            pts = np.array([[rng.uniform(0, 0.4 * cutoff) for _ in range(3)] for _ in range(n)])
+            pts[rng.randrange(n):] += np.array([3.0 * cutoff, 0.0, 0.0])
+        # rigid motion keeps the verdict
+        q = np.linalg.qr(np.array([[rng.gauss(0, 1) for _ in range(3)] for _ in range(3)]))[0]
+        pts = pts @ q.T + np.array([rng.uniform(-2, 2) for _ in range(3)])
+        d = [float(np.linalg.norm(pts[i] - pts[j])) for i in range(n) for j in range(i + 1, n)]
+        if any(abs(x / cutoff - 1.0) < 0.05 for x in d):
+            continue
+        yield kind, pts, cutoff
+
+
+def bond_oracle_predicate(pts, cutoff) -> tuple[str, str, dict] | None:
+    """the bonding test of atomic systems (it gates acceptance in C07 and archiving in C08) answers
+    'one connected cluster at the cutoff' for the geometry it is asked about"""
+    from topsearch.data.coordinates import AtomicCoordinates
+    pts = np.asarray(pts, dtype=float)
+    c = AtomicCoordinates(["C"] * len(pts), pts.ravel().copy(), bond_cutoff=float(cutoff))
+    got, want = bool(c.same_bonds()), connected_reference(pts, float(cutoff))
+    if got != want:
+        return ("bonding-test:same_bonds", f"{len(pts)} atoms, cutoff {cutoff}: same_bonds() says "
+                f"{'connected' if got else 'dissociated'}, the cluster is {'connected' if want else 'dissociated'} "
+                f"(positions {np.round(pts, 4).tolist()})", {"bond_oracle": {"pts": pts.tolist(), "cutoff": float(cutoff)}})
+    return None
+
+
+def bond_oracle(ctx: Ctx) -> None:
+    done = False
+    for kind, pts, cutoff in bond_oracle_cases(ctx.rng, ctx.scale(150, 1500)):
+        r = bond_oracle_predicate(pts, cutoff)
+        ctx.stats.case({"stream": "predicate-bonding-test", "kind": kind, "n": len(pts)}, True)
+        ctx.contract("same_bonds", r is None)
+        if r and not done:
+            done = True
+            ctx.fail(*r)
+
+
 def predicates(ctx: Ctx) -> None:
     rng = ctx.rng
     deep = getattr(ctx, "deep_search", False)
+    bond_oracle(ctx)
     # corpus first: the run that exposed the save/restore-by-reference defect
     script, rec = run_trace(CORPUS_TRACE)
     ctx.stats.case({"stream": "predicate-corpus", "name": "camelback-seed3-T1e-6"}, True)
@@ -807,6 +881,11 @@ def predicates(ctx: Ctx) -> None:
 
 
 def replay(ctx: Ctx, data: dict) -> bool:
+    if "bond_oracle" in data:
+        r = bond_oracle_predicate(data["bond_oracle"]["pts"], data["bond_oracle"]["cutoff"])
+        if r:
+            print(f"  {r[0]}: {r[1]}")
+        return r is None
     if "trace" in data:
         script, rec = run_trace(data["trace"])
         r = walker_predicate(script, rec)
